@@ -50,8 +50,65 @@ def parseCut (s : String) : Option (Nat × Nat × Nat) :=
   | ["cut", a, b, k] => do pure ((← a.toNat?), (← b.toNat?), (← k.toNat?))
   | _ => none
 
+
+/-! ### `c19.stall`: input streams that answer `Pending` at scripted positions -/
+
+def tagBase : Nat := 500000
+
+/-- one stall entry `<pos>[d][@<h>]`: position and the helper it is restricted to (`d` = delayed wake-up: the
+same answer `Pending` as far as the model is concerned) -/
+def parseStall (e : String) : Option (Nat × Option Nat) := do
+  let (e, h) ← match e.splitOn "@" with
+    | [a] => some (a, none)
+    | [a, h] => do pure (a, some (← h.toNat?))
+    | _ => none
+  let e := if e.endsWith "d" then (e.dropEnd 1).toString else e
+  pure ((← e.toNat?), h)
+
+def parseStalls (s : String) : Option (List (List (Nat × Option Nat))) :=
+  (s.splitOn "/").mapM fun l => if l = "-" then some [] else (l.splitOn ",").mapM parseStall
+
+/-- the answers of shard `s`'s input stream on helper `h`: `Pending` as often as scripted before each item
+(and before the end), the items in between -/
+def stallEvents (c : Case) (stalls : List (List (Nat × Option Nat))) (aad : Bool) (h s : Nat) : List (Ev Nat Nat) :=
+  let items : List (Ev Nat Nat) := (c.items s).map fun
+    | some v => .ready v (if aad then tagBase + v else v)
+    | none => .err
+  let mine := (stalls.getD s []).filter fun e => e.2.isNone || e.2 == some h
+  let count (i : Nat) : Nat := (mine.filter fun e => e.1 == i).length
+  (items.zipIdx.flatMap fun (ev, i) => List.replicate (count i) .pending ++ [ev]) ++ List.replicate (count items.length) .pending
+
+/-- the `reshard_aad` picker of the suite looks the destination up by the TAG it is handed -/
+def Case.pickTag (c : Case) (_src _i : Nat) (a : Nat) : Nat :=
+  (c.dests.getD ((a - tagBase) / 1000) []).getD ((a - tagBase) % 1000) 0
+
+def showAad : AadOutcome Nat Nat → String
+  | .err => "!"
+  | .hang => "~"
+  | .ok kept tags => showNatList kept ++ ";" ++ showNatList tags
+
+def stallModel (func : String) (c : Case) (stalls : List (List (Nat × Option Nat))) : String :=
+  let perHelper (h : Nat) : List String :=
+    (List.range c.n).map fun d =>
+      if func == "aad" then showAad (aadOutcome c.n c.pickTag (stallEvents c stalls true h) c.hint d)
+      else showShard (polledOutcome c.n c.pick (fun s => (stallEvents c stalls false h s).map fun
+        | .ready _ a => Ev.ready () a
+        | .pending => .pending
+        | .err => .err) c.hint d)
+  let r0 := perHelper 0
+  let r1 := perHelper 1
+  let r2 := perHelper 2
+  String.intercalate "/" ((r0.zip (r1.zip r2)).map fun (a, b, c) => if a == b && b == c then a else "mixed")
+
 def handle (toks : List String) : Option String :=
   match toks with
+  | ["c19.stall", func, _mode, n, dests, hints, errs, stalls] => some <| (do
+      -- `try` semantics of hints / errors for `aad` and `try`; `stream` takes neither
+      let c ← parseCase (if func == "stream" then "stream" else "try") n dests hints errs
+      let st ← parseStalls stalls
+      if c.dests.length != c.n then none else
+      if !(st.length == c.n || stalls == "-") then none else
+      pure (stallModel func c st)).getD "bad-request"
   | ["c19.reshard", variant, n, dests, hints, errs] => some <| (do
       let c ← parseCase variant n dests hints errs
       if c.dests.length != c.n then none else
@@ -83,6 +140,32 @@ def checkLists (c : Case) (lists : List (List Nat × Nat)) (expectAll : Bool) : 
 
 def oracle (toks : List String) (impl : String) : Option String :=
   match toks with
+  | ["c19.stall", func, _mode, n, dests, hints, errs, _stalls] => some <| (do
+      -- the timing of the input streams (the stall script) is NOT consulted: whatever it is, the outcome must be
+      -- that of plain sequences of items
+      let c ← parseCase (if func == "stream" then "stream" else "try") n dests hints errs
+      if impl.startsWith "timeout" || impl.startsWith "panic" then pure s!"fails resharding did not complete: {impl}" else
+      let shards := impl.splitOn "/"
+      if shards.length != c.n then pure "fails wrong number of shard results" else
+      let fails := fun (s : Nat) => (c.errs[s]?).join.isSome || (c.hint s < (c.values s).length)
+      if (List.range c.n).any fails then
+        if !(shards.all (fun x => x == "!" || x == "~")) then pure "fails an input stream failed but some shard returned Ok (or helpers disagree)"
+        else if (shards.zipIdx).any (fun (xs : String × Nat) => fails xs.2 && xs.1 != "!") then pure "fails the shard whose input stream failed did not return an error"
+        else pure "holds"
+      else
+        if shards.any (fun x => x == "!" || x == "~" || x == "mixed") then pure "fails resharding of error-free input failed, did not return, or helpers disagree" else
+        if func == "aad" then
+          let parts : List (List String) := shards.map fun (x : String) => x.splitOn ";"
+          if parts.any (fun (p : List String) => p.length != 2) then pure "unknown" else
+          let kept : List (List Nat) ← parts.mapM fun (p : List String) => parseNatList (p.getD 0 "")
+          let tags : List (List Nat) ← parts.mapM fun (p : List String) => parseNatList (p.getD 1 "")
+          -- every data record of the shard's own input is kept, in input order
+          if (kept.zipIdx).any (fun (ls : List Nat × Nat) => ls.1 != c.values ls.2) then pure "fails a shard did not keep exactly its own data records in input order (records dropped?)"
+          else if tags.any (fun (l : List Nat) => l.any (· < tagBase)) then pure "fails a received tag is not a tag of the input" else
+          pure (checkLists c ((tags.map fun (l : List Nat) => l.map (· - tagBase)).zipIdx) true)
+        else
+          let lists ← shards.mapM parseNatList
+          pure (checkLists c lists.zipIdx true)).getD "unknown"
   | ["c19.reshard", variant, n, dests, hints, errs, fault] => some <| (do
       -- a damaged shard-to-shard stream (bytes lost, never a whole record): the receiving shard must not
       -- return Ok; a shard that does return Ok holds exactly the records routed to it, all of them, in order
